@@ -40,42 +40,42 @@ func Register(p *PropDef) { Props[p.ID] = p }
 
 // RunResult is what a worker reports per run (one JSON line).
 type RunResult struct {
-	I          int               `json:"i"`
-	Seed       uint64            `json:"seed"`
-	Viol       []Violation       `json:"viol,omitempty"`
-	LogHash    string            `json:"loghash"`
-	Skel       string            `json:"skel"`
-	Nontrivial bool              `json:"nontrivial"`
-	Steps      uint64            `json:"steps"`
-	SyncSteps  uint64            `json:"sync"`
-	VirtNS     int64             `json:"virt_ns"`
-	Faults     map[string]int    `json:"faults,omitempty"`
-	Probes     map[string]int    `json:"probes,omitempty"`
-	Strat      string            `json:"strat"`
-	SwitchHash string            `json:"swh"`
-	States     []string          `json:"states,omitempty"`
-	Trace      []uint32          `json:"trace,omitempty"`
-	Ops        []string          `json:"ops,omitempty"`
-	Inconcl    int               `json:"inconclusive,omitempty"`
-	Exhausted  bool              `json:"exhausted,omitempty"`
-	WallUS     int64             `json:"wall_us"`
-	RaceBuild  bool              `json:"race_build,omitempty"`
-	RaceDrop   int               `json:"race_reports_harness_side,omitempty"`
-	Variant    int               `json:"variant,omitempty"`
+	I          int            `json:"i"`
+	Seed       uint64         `json:"seed"`
+	Viol       []Violation    `json:"viol,omitempty"`
+	LogHash    string         `json:"loghash"`
+	Skel       string         `json:"skel"`
+	Nontrivial bool           `json:"nontrivial"`
+	Steps      uint64         `json:"steps"`
+	SyncSteps  uint64         `json:"sync"`
+	VirtNS     int64          `json:"virt_ns"`
+	Faults     map[string]int `json:"faults,omitempty"`
+	Probes     map[string]int `json:"probes,omitempty"`
+	Strat      string         `json:"strat"`
+	SwitchHash string         `json:"swh"`
+	States     []string       `json:"states,omitempty"`
+	Trace      []uint32       `json:"trace,omitempty"`
+	Ops        []string       `json:"ops,omitempty"`
+	Inconcl    int            `json:"inconclusive,omitempty"`
+	Exhausted  bool           `json:"exhausted,omitempty"`
+	WallUS     int64          `json:"wall_us"`
+	RaceBuild  bool           `json:"race_build,omitempty"`
+	RaceDrop   int            `json:"race_reports_harness_side,omitempty"`
+	Variant    int            `json:"variant,omitempty"`
 }
 
 type ReplayFile struct {
-	Prop    string   `json:"property"`
-	Tier    string   `json:"tier"`
-	Seed    uint64   `json:"seed"`
-	Sig     string   `json:"signature"`
-	Msg     string   `json:"message"`
-	LogHash string   `json:"event_log_hash"`
-	Trace   []uint32 `json:"choice_trace"`
-	Ops     []string `json:"operations_and_faults"`
-	Note    string   `json:"note,omitempty"`
-	Variant int      `json:"variant,omitempty"`
-	RaceBuild bool   `json:"race_build,omitempty"`
+	Prop      string   `json:"property"`
+	Tier      string   `json:"tier"`
+	Seed      uint64   `json:"seed"`
+	Sig       string   `json:"signature"`
+	Msg       string   `json:"message"`
+	LogHash   string   `json:"event_log_hash"`
+	Trace     []uint32 `json:"choice_trace"`
+	Ops       []string `json:"operations_and_faults"`
+	Note      string   `json:"note,omitempty"`
+	Variant   int      `json:"variant,omitempty"`
+	RaceBuild bool     `json:"race_build,omitempty"`
 }
 
 // curVariant is the variant (fault position) of the run being executed.
@@ -909,7 +909,9 @@ func cmdCheck(args []string) int {
 	return exit
 }
 
-func raceLogPrefix() string { return filepath.Join(os.TempDir(), "upfsim-race-"+strconv.Itoa(os.Getpid())) }
+func raceLogPrefix() string {
+	return filepath.Join(os.TempDir(), "upfsim-race-"+strconv.Itoa(os.Getpid()))
+}
 
 // ---------------------------------------------------------------- evidence
 
@@ -965,23 +967,23 @@ func writeEvidence(pd *PropDef, tier string, seed uint64, results []RunResult, w
 		"violations":  nviol,
 		"assumptions": pd.Assume,
 		"coverage": map[string]any{
-			"evaluations":            len(results),
-			"distinct_nontrivial":    len(skels),
-			"rule":                   pd.Rule,
-			"samples":                samples,
-			"runs_per_hour":          int(float64(len(results)) / wall * 3600),
-			"simulated_seconds":      float64(virt) / 1e9,
-			"steps":                  steps,
-			"fault_fired":            faults,
-			"strategies":             strats,
-			"distinct_interleavings": len(inter),
-			"distinct_states":        len(states),
-			"probes":                 probes,
-			"components":             map[string]any{"real": pd.Real, "simulated": pd.Simulated},
-			"determinism_recheck":    map[string]int{"runs": recheckRuns, "mismatches": recheckMismatch},
-			"known_findings_seen":    knownSeen,
-			"inconclusive":           inconcl,
-			"step_budget_exhausted":  exhausted,
+			"evaluations":                    len(results),
+			"distinct_nontrivial":            len(skels),
+			"rule":                           pd.Rule,
+			"samples":                        samples,
+			"runs_per_hour":                  int(float64(len(results)) / wall * 3600),
+			"simulated_seconds":              float64(virt) / 1e9,
+			"steps":                          steps,
+			"fault_fired":                    faults,
+			"strategies":                     strats,
+			"distinct_interleavings":         len(inter),
+			"distinct_states":                len(states),
+			"probes":                         probes,
+			"components":                     map[string]any{"real": pd.Real, "simulated": pd.Simulated},
+			"determinism_recheck":            map[string]int{"runs": recheckRuns, "mismatches": recheckMismatch},
+			"known_findings_seen":            knownSeen,
+			"inconclusive":                   inconcl,
+			"step_budget_exhausted":          exhausted,
 			"other_property_violations_seen": other,
 		},
 	}
@@ -994,9 +996,9 @@ func writeEvidence(pd *PropDef, tier string, seed uint64, results []RunResult, w
 			}
 		}
 		ev["coverage"].(map[string]any)["race_detector"] = map[string]any{
-			"runs_under_race_build":                nr,
-			"harness_side_reports_dropped":         drop,
-			"note": "same scenarios and choice streams as the plain build (event-log hashes compared); token hand-over inside RaceDisable sections creates no happens-before edge between agent goroutines",
+			"runs_under_race_build":        nr,
+			"harness_side_reports_dropped": drop,
+			"note":                         "same scenarios and choice streams as the plain build (event-log hashes compared); token hand-over inside RaceDisable sections creates no happens-before edge between agent goroutines",
 		}
 	}
 	if x := os.Getenv("UPFSIM_EXTRA_COVERAGE"); x != "" {
